@@ -127,6 +127,32 @@ Theorem c20_partition_exactly_at_depth_one : forall ops g0 size start stop, nest
 Proof. exact regions_and_blocks. Qed.
 Print Assumptions c20_partition_exactly_at_depth_one.
 
+(* the helpers as they are called: work is handed out in blocks exactly where reduce / allreduce sum over the processes,
+   the whole range where they leave the data alone, and both refuse together (outside a declared region) *)
+Theorem c20_shared_exactly_where_summed : forall region level v size start stop rank,
+  match reduce_mode region level with
+  | RSummed => helper region level v size start stop rank = Handed (block v size start stop rank)
+  | RUntouched => helper region level v size start stop rank = Handed (zrange start stop)
+  | RRefused => helper region level v size start stop rank = Refused
+  end.
+Proof. exact shared_exactly_where_summed. Qed.
+Print Assumptions c20_shared_exactly_where_summed.
+
+(* from a new configuration, helpers and reductions refuse exactly outside all (well-nested) regions *)
+Theorem c20_refused_exactly_outside_regions : forall ops (sh : bool) v size start stop rank, nested 0 ops = true ->
+  let s := r_run sh (mkR 0 0) ops in
+  (helper (r_region s) (r_level s) v size start stop rank = Refused <-> depth_after 0 ops = 0) /\
+  (reduce_mode (r_region s) (r_level s) = RRefused <-> depth_after 0 ops = 0).
+Proof. exact refused_exactly_outside_regions. Qed.
+Print Assumptions c20_refused_exactly_outside_regions.
+
+Example c20_helper_example :
+  nested 0 [RStart; RStart; RFinish] = true /\
+  (let s := r_run true (mkR 0 0) [RStart; RStart; RFinish] in helper (r_region s) (r_level s) FromStart 3 5 12 1) = Handed [7; 8; 9] /\
+  (let s := r_run true (mkR 0 0) [RStart; RStart] in helper (r_region s) (r_level s) FromStart 3 5 7 1) = Handed [5; 6] /\
+  (let s := r_run true (mkR 0 0) [RStart; RFinish] in helper (r_region s) (r_level s) FromStart 3 5 7 1) = Refused.
+Proof. repeat split; vm_compute; reflexivity. Qed.
+
 (* non-vacuity: a concrete non-trivial instance *)
 Example c20_example : ranges FromStart 3 5 12 = [(5,7); (7,10); (10,12)].
 Proof. vm_compute. reflexivity. Qed.
